@@ -616,3 +616,173 @@ def negative_slice_rule(fi, rule="R-SLICE0", ai=None, int_params=()):
                         return [("offset >= 1", v - 1)]
                     out.append(decide_states(ai, fi, st_, mk, rule, role))
     return out
+
+
+# ------------------------------------------------------------------ KNOB: a tuning / diagnostic parameter must not influence results
+KNOB_SINKS = {"Parallel", "joblib.Parallel", "numba.set_num_threads", "set_num_threads", "tqdm", "trange", "tqdm.tqdm", "tqdm.trange",
+              "print", "warnings.warn", "logging.info", "logging.debug", "logging.warning", "min", "max", "int", "range"}
+_PRINTERS = {"print", "warnings.warn", "logging.info", "logging.debug", "logging.warning", "sys.stdout.write", "sys.stderr.write"}
+
+
+def knob_rule(fi, param, rule="KNOB", forward_ok=True):
+    """Non-interference of a knob (`n_jobs`, `verbose`): results are the same whatever its value.  Every read of the parameter (and of a
+    local that merely copies it) must be one of
+      * an argument of a sink that consumes it without changing results: Parallel(n_jobs=..), numba.set_num_threads(..), tqdm / trange
+        (disable= / desc=), print / warnings.warn;
+      * forwarded under its own name to another call (`verbose=verbose`): that callee is judged where it is analysed;
+      * a validation test whose body only raises;
+      * the test of an `if` whose body only prints / warns (locals assigned there must not be read outside it).
+    An `if` WITHOUT else whose test reads the knob and whose body rebinds or mutates a name that is read after the `if` makes data depend on
+    the knob: named violation.  Anything else (alternative implementations under if/else, arithmetic on the knob) is not judged."""
+    from .core import named
+    role = "results do not depend on `%s` (it only reaches schedulers, progress bars and messages)" % param
+    if param not in fi.params:
+        return [unrecognised(rule, fi, role, "parameter `%s` no longer exists" % param, fi.node)]
+    pm = parent_map(fi.node)
+    knobs = {param}
+    for n in ast.walk(fi.node):
+        if isinstance(n, ast.Assign) and len(n.targets) == 1 and isinstance(n.targets[0], ast.Name):
+            v = n.value.operand if isinstance(n.value, ast.UnaryOp) and isinstance(n.value.op, ast.Not) else n.value
+            if isinstance(v, ast.Name) and v.id in knobs:
+                knobs.add(n.targets[0].id)
+    reads = [n for n in ast.walk(fi.node) if isinstance(n, ast.Name) and n.id in knobs and isinstance(n.ctx, ast.Load)]
+    out, n_ok = [], 0
+
+    MUTATORS = ("sort", "reverse", "append", "extend", "insert", "pop", "remove", "clear", "update", "shuffle", "add", "discard", "setdefault",
+                "fill", "fill_", "zero_", "copy_", "add_", "mul_", "sub_", "div_")
+
+    def in_sink(n):
+        x = n
+        while x in pm and not isinstance(pm[x], ast.stmt):
+            x = pm[x]
+            if isinstance(x, ast.Call) and dotted(x.func) in KNOB_SINKS and dotted(x.func) not in ("min", "max", "int", "range"):
+                return True
+        return False
+
+    def escaping(block, end_line):
+        """-> (names changed in the block that a later read can observe, statement the rule cannot classify | None)"""
+        stored, mutated, fresh = set(), set(), set()
+        unknown = None
+        for st in block:
+            for x in ast.walk(st):
+                if isinstance(x, ast.Name) and isinstance(x.ctx, ast.Store):
+                    stored.add(x.id)
+                elif isinstance(x, (ast.Subscript, ast.Attribute)) and isinstance(x.ctx, (ast.Store, ast.Del)):
+                    b_ = x
+                    while isinstance(b_, (ast.Subscript, ast.Attribute)):
+                        b_ = b_.value
+                    if isinstance(b_, ast.Name):
+                        mutated.add(b_.id)
+                    else:
+                        unknown = unknown or st
+                elif isinstance(x, ast.Call) and isinstance(x.func, ast.Attribute) and isinstance(x.func.value, ast.Name) and x.func.attr in MUTATORS:
+                    mutated.add(x.func.value.id)
+                elif isinstance(x, (ast.Return, ast.Break, ast.Continue, ast.Raise, ast.Global, ast.Nonlocal, ast.Yield, ast.YieldFrom)):
+                    unknown = unknown or st
+        first_line = min([st.lineno for st in block] or [0])
+        # objects created inside the block may be mutated there freely
+        for nm in list(mutated):
+            pre = [x for x in ast.walk(fi.node) if isinstance(x, ast.Name) and x.id == nm and isinstance(x.ctx, ast.Store) and x.lineno < first_line]
+            if not pre and nm not in fi.params and nm in stored:
+                mutated.discard(nm)
+        hit = set(mutated)
+        for nm in stored:
+            for x in ast.walk(fi.node):
+                if isinstance(x, ast.Name) and x.id == nm and isinstance(x.ctx, ast.Load) and getattr(x, "lineno", 0) > end_line and not in_sink(x):
+                    redefined = any(isinstance(y, ast.Name) and y.id == nm and isinstance(y.ctx, ast.Store) and end_line < y.lineno <= x.lineno
+                                    for y in ast.walk(fi.node))
+                    if not redefined:
+                        hit.add(nm)
+                        break
+        return hit, unknown
+
+    for r in reads:
+        node, verdict = r, None
+        while node in pm and verdict is None:
+            par = pm[node]
+            if isinstance(par, ast.Assign) and len(par.targets) == 1 and isinstance(par.targets[0], ast.Name) and par.targets[0].id in knobs and \
+                    (par.value is r or (isinstance(par.value, ast.UnaryOp) and par.value.operand is r)):
+                verdict = "ok"       # the copy itself; its reads are judged on their own
+            elif isinstance(par, ast.keyword) and forward_ok and par.arg == r.id and par.value is r:
+                verdict = "ok"
+            elif isinstance(par, ast.Call) and node is not par.func and dotted(par.func) in KNOB_SINKS and dotted(par.func) not in ("min", "max", "int", "range"):
+                verdict = "ok"
+            elif isinstance(par, ast.Call) and isinstance(par.func, ast.Call) and dotted(par.func.func) in KNOB_SINKS and node is par.func:
+                verdict = "ok"       # Parallel(n_jobs=..)(..): the knob sits in the inner call
+            elif isinstance(par, ast.If) and node is par.test:
+                end = par.end_lineno or par.lineno
+                if all(isinstance(st, ast.Raise) for st in par.body) and not par.orelse:
+                    verdict = "ok"
+                else:
+                    hb, ub = escaping(par.body, end)
+                    ho, uo = escaping(par.orelse, end) if par.orelse else (set(), None)
+                    if not hb and not ho and ub is None and uo is None:
+                        verdict = "ok"       # whatever the arms compute stays inside them (messages, local bookkeeping)
+                    elif not par.orelse and hb and ub is None:
+                        out.append(named(rule, fi, role, "`if %s:` (no else) changes `%s`, which is read afterwards: the data the result is built from "
+                                         "depends on `%s`" % (unparse(par.test)[:40], ", ".join(sorted(hb)[:3]), param), par))
+                        verdict = "reported"
+                    else:
+                        verdict = "unknown"
+            elif isinstance(par, ast.stmt):
+                verdict = "unknown"
+            node = par
+        if verdict == "ok":
+            n_ok += 1
+        elif verdict != "reported":
+            s = r
+            while not isinstance(s, ast.stmt):
+                s = pm[s]
+            out.append(unrecognised(rule, fi, role, "`%s` is read in `%s`: not one of the recognised result-neutral uses" % (r.id, unparse(s)[:70]), s))
+    if not out:
+        out.append(holds(rule, fi, role, "%d read(s) of `%s`: scheduler / progress / message sinks and same-name forwarding only" % (n_ok, param),
+                         fi.node, nontrivial=bool(reads)))
+    return out
+
+
+# ------------------------------------------------------------------ NONE-TEST: an optional numeric / array parameter is tested with `is None`
+def none_test_rule(fi, rule="NONE-TEST"):
+    """A parameter whose default is None and that the docstring types as a number, tensor, array or list means "not given" only when it IS
+    None.  A truthiness test (`if p:`, `not p`, `p or default`, `p and ..`) also fires for 0, 0.0, an empty list - and raises for a tensor
+    with more than one element: a value the caller passed on purpose is silently replaced / skipped.  Named deviation; `is None` /
+    `is not None` / isinstance tests are what the rule expects."""
+    from .core import named
+    a = fi.node.args
+    defaults = dict(zip([x.arg for x in a.args][len(a.args) - len(a.defaults):], a.defaults))
+    dp = fi.docparams()
+    cand = []
+    for k, v in defaults.items():
+        if isinstance(v, ast.Constant) and v.value is None:
+            d = dp.get(k, {})
+            t = d.get("type", "").lower()
+            if d.get("kind") in ("tensor", "int") or any(w in t for w in ("float", "array", "list", "tuple", "int")):
+                cand.append(k)
+    if not cand:
+        return []
+    pm = parent_map(fi.node)
+    out = []
+    for p in cand:
+        role = "optional parameter `%s` is recognised as absent by `is None` only (0 / empty / a tensor are values, not absence)" % p
+        stores = [n for n in ast.walk(fi.node) if isinstance(n, ast.Name) and n.id == p and isinstance(n.ctx, ast.Store)]
+        bad = None
+        n_tests = 0
+        for n in ast.walk(fi.node):
+            if isinstance(n, ast.Name) and n.id == p and isinstance(n.ctx, ast.Load):
+                par = pm.get(n)
+                if isinstance(par, ast.Compare) and any(isinstance(o, (ast.Is, ast.IsNot)) for o in par.ops):
+                    n_tests += 1
+                    continue
+                truthy = (isinstance(par, (ast.If, ast.While, ast.IfExp)) and par.test is n) or \
+                         (isinstance(par, ast.UnaryOp) and isinstance(par.op, ast.Not)) or \
+                         (isinstance(par, ast.BoolOp) and n in par.values and (n is not par.values[-1] or isinstance(pm.get(par), (ast.If, ast.While, ast.IfExp, ast.UnaryOp))))
+                if truthy and not any(s.lineno < n.lineno for s in stores):
+                    bad = bad or (n, par)
+        if bad:
+            s = bad[0]
+            while not isinstance(s, ast.stmt):
+                s = pm[s]
+            out.append(named(rule, fi, role, "`%s` tests the truth value of `%s`: a caller who passes 0 / 0.0 / an empty sequence gets the default behaviour, "
+                             "a multi-element tensor raises" % (unparse(bad[1])[:60], p), s))
+        elif n_tests:
+            out.append(holds(rule, fi, role, "%d identity test(s) against None" % n_tests, fi.node, nontrivial=False))
+    return out
